@@ -15,13 +15,16 @@ func VH_C15_report_frame() {
 	ms := vrt.Pick("MS", "X", "U", "C")
 	mc := vrt.Pick("MC", "X", "H", "L", "N")
 	lang := vrt.Lang("lang")
+	lang0 := vrt.Lang("lang0") // the report built before the frame may use another language than those built inside it
 	text := vrt.String("text")
 	em, err := metric.NewEnvironmental().Decode("CVSS:" + ver + "/AV:N/AC:L/PR:L/UI:R/S:" + s + "/C:H/I:L/A:N/E:" + e + "/RL:W/RC:R/CR:H/IR:M/AR:L/MAV:A/MAC:X/MPR:H/MUI:R/MS:" + ms + "/MC:" + mc + "/MI:X/MA:N")
 	vrt.Assert(err == nil, "accepted")
 	if err != nil {
 		return
 	}
-	first := NewEnvironmental(em, WithOptionsLanguage(lang))
+	plain0 := NewBase(em.BaseMetrics()) // default options, built before anything else
+	first := NewEnvironmental(em, WithOptionsLanguage(lang0))
+	firstMC, firstSev := first.MCValue, first.SeverityValue
 	vrt.FrameWatch(em, first)
 	vrt.FrameBegin()
 	r1 := NewEnvironmental(em, WithOptionsLanguage(lang))
@@ -33,7 +36,10 @@ func VH_C15_report_frame() {
 	_, _ = first.ExportWithString(text)
 	vrt.FrameUnchanged("report construction and template export write nothing that existed before")
 	vrt.Assert(r1 != first && r1.TemporalReport != first.TemporalReport && r1.TemporalReport.BaseReport != first.TemporalReport.BaseReport, "every report construction returns fresh report objects")
-	vrt.Assert(r1.MCValue == first.MCValue && r1.EnvironmentalScore == first.EnvironmentalScore && r1.SeverityValue == first.SeverityValue && r1.Vector == first.Vector, "building the report again yields the same fields")
+	vrt.Assert(r1.EnvironmentalScore == first.EnvironmentalScore && r1.Vector == first.Vector && first.MCValue == firstMC && first.SeverityValue == firstSev, "building the report again yields the same scores; the first report keeps its fields")
+	vrt.Assert(r3.AVName == plain0.AVName && r3.AVValue == plain0.AVValue && r3.SeverityValue == plain0.SeverityValue && r3.BaseMetrics == plain0.BaseMetrics, "a report built with default options is the same whatever reports were built in other languages before")
+	again := NewEnvironmental(em, WithOptionsLanguage(lang))
+	vrt.Assert(r1.MCValue == again.MCValue && r1.SeverityValue == again.SeverityValue && r1.MSName == again.MSName, "building the report again in the same language yields the same fields")
 }
 
 // history-freedom of reports: building and exporting a report of one vector (any language) does not
@@ -64,6 +70,9 @@ func VH_C15_report_history() {
 		return
 	}
 	rep := NewEnvironmental(em2, WithOptionsLanguage(lang2))
+	plain := NewBase(em2.BaseMetrics())
+	vrt.Observe("default-language AVName", plain.AVName)
+	vrt.Observe("default-language SeverityValue", plain.SeverityValue)
 	vrt.Observe("MCValue", rep.MCValue)
 	vrt.Observe("MSName", rep.MSName)
 	vrt.Observe("EnvironmentalScore", rep.EnvironmentalScore)
